@@ -148,7 +148,7 @@ func genCorruptions(r *core.Rand, e *kmodel.Engine) []*corruption {
 		if e.Cfg.BossCascade != boltz.CascadeCreateUpdate || true {
 			add(&corruption{Class: "fk-dangling-boss", Desc: fmt.Sprintf("emps[%q].boss = %q (missing)", id, ghostEmp), Needles: [][]string{{"boss", id, ghostEmp}}, Unfixable: !e.Cfg.BossNullable,
 				apply: func(tx *bbolt.Tx) error {
-					return bpath(tx, "stores", "emps", id).Put([]byte("boss"), strField(ghostEmp))
+					return bpath(tx, "stores", "emps", id).Put([]byte("bs"), strField(ghostEmp))
 				},
 				fixModel: func(m *kmodel.Model) {
 					if e.Cfg.BossNullable {
@@ -183,7 +183,7 @@ func genCorruptions(r *core.Rand, e *kmodel.Engine) []*corruption {
 		}
 		if !e.Cfg.BossNullable {
 			add(&corruption{Class: "null-in-non-nullable-fk-constraint", Desc: fmt.Sprintf("emps[%q].boss = nil (spelling %d)", id, how), Needles: [][]string{{"boss", id, "nil"}}, Unfixable: true,
-				apply: func(tx *bbolt.Tx) error { return nilPut(tx, "boss", how) }})
+				apply: func(tx *bbolt.Tx) error { return nilPut(tx, "bs", how) }})
 		}
 		// links
 		for _, d := range m.LinksOf(kmodel.Emps, id) {
